@@ -79,31 +79,30 @@ theorem run_fnAfterStart (branch : Bool) (a : Acc) (n : Nat) (nm : Bytes) (d : N
     rw [run_fnName branch a n [x] nm d (fun y hy => hnm y (List.mem_cons_of_mem _ hy)) hd]
     simp
 
-theorem run_fndaName (branch : Bool) (a a' : Acc) (n : Nat) (acc nm : Bytes) (d : Nat)
-    (hnm : noEol nm) (hd : d = LF ∨ d = CR) (hc : commitFnda a n (acc ++ nm) = some a') :
-    run branch ⟨.fndaName n acc, a⟩ (nm ++ [d]) = ⟨.dispatch, a'⟩ := by
+theorem run_fndaName (branch : Bool) (a : Acc) (n : Nat) (acc nm : Bytes) (d : Nat)
+    (hnm : noEol nm) (hd : d = LF ∨ d = CR) :
+    run branch ⟨.fndaName n acc, a⟩ (nm ++ [d]) = ⟨.dispatch, commitFnda a n (acc ++ nm)⟩ := by
   induction nm generalizing acc with
-  | nil =>
-    simp only [List.append_nil] at hc
-    simp [run, step, hd, hc]
+  | nil => simp [run, step, hd]
   | cons x nm ih =>
     obtain ⟨h1, h2⟩ := hnm x (by simp)
     have hs : step branch ⟨.fndaName n acc, a⟩ x = ⟨.fndaName n (acc ++ [x]), a⟩ := by
       simp [step, h1, h2]
     simp only [List.cons_append, run_cons, hs]
-    exact ih (acc ++ [x]) (fun y hy => hnm y (List.mem_cons_of_mem _ hy)) (by simpa using hc)
+    rw [ih (acc ++ [x]) fun y hy => hnm y (List.mem_cons_of_mem _ hy)]
+    simp
 
-theorem run_fndaAfter (branch : Bool) (a a' : Acc) (n : Nat) (nm : Bytes) (d : Nat)
-    (hnm : noEol nm) (hd : d = LF ∨ d = CR) (hc : commitFnda a n nm = some a') :
-    run branch ⟨.fndaAfter n, a⟩ (nm ++ [d]) = ⟨.dispatch, a'⟩ := by
+theorem run_fndaAfter (branch : Bool) (a : Acc) (n : Nat) (nm : Bytes) (d : Nat)
+    (hnm : noEol nm) (hd : d = LF ∨ d = CR) :
+    run branch ⟨.fndaAfter n, a⟩ (nm ++ [d]) = ⟨.dispatch, commitFnda a n nm⟩ := by
   cases nm with
-  | nil => simp [run, step, hd, hc]
+  | nil => simp [run, step, hd]
   | cons x nm =>
     obtain ⟨h1, h2⟩ := hnm x (by simp)
     have hs : step branch ⟨.fndaAfter n, a⟩ x = ⟨.fndaName n [x], a⟩ := by simp [step, h1, h2]
     simp only [List.cons_append, run_cons, hs]
-    exact run_fndaName branch a a' n [x] nm d (fun y hy => hnm y (List.mem_cons_of_mem _ hy)) hd
-      (by simpa using hc)
+    rw [run_fndaName branch a n [x] nm d (fun y hy => hnm y (List.mem_cons_of_mem _ hy)) hd]
+    simp
 
 theorem run_brTaken (a : Acc) (l n : Nat) (t : Bool) (tk : Bytes) (d : Nat) (htk : noEol tk)
     (hd : d = LF ∨ d = CR) :
@@ -176,11 +175,10 @@ theorem fn_record_bytes (branch : Bool) (a : Acc) (s : Digits) (name eol : Bytes
     run_append, run_fnAfterStart branch a s.val name d hn hd]
   exact run_eol_rest branch _ rest hrest
 
-theorem fnda_record_bytes (branch : Bool) (a a' : Acc) (c : Digits) (name eol : Bytes)
-    (hc : c.WF U64MAX) (hn : noEol name) (heol : eol = [LF] ∨ eol = [CR, LF])
-    (hcommit : commitFnda a c.val name = some a') :
+theorem fnda_record_bytes (branch : Bool) (a : Acc) (c : Digits) (name eol : Bytes)
+    (hc : c.WF U64MAX) (hn : noEol name) (heol : eol = [LF] ∨ eol = [CR, LF]) :
     run branch ⟨.dispatch, a⟩ ([70, 78, 68, 65, 58] ++ c.bytes ++ [44] ++ name ++ eol)
-      = ⟨.dispatch, a'⟩ := by
+      = ⟨.dispatch, commitFnda a c.val name⟩ := by
   obtain ⟨d, rest, rfl, hd, hrest⟩ := eol_cases eol heol
   have e1 : [70, 78, 68, 65, 58] ++ c.bytes ++ [44] ++ name ++ d :: rest
       = [70, 78, 68, 65, 58] ++ ((c.bytes ++ [44]) ++ ((name ++ [d]) ++ rest)) := by simp
@@ -189,7 +187,7 @@ theorem fnda_record_bytes (branch : Bool) (a a' : Acc) (c : Digits) (name eol : 
   rw [e1, run_append, p, run_append,
     run_field branch U64MAX .fndaFirst .fndaCount .fndaAfter a
       (fun b hb => by simp [step, hb]) (fun n b => rfl) c hc 44 comma_not_digit,
-    run_append, run_fndaAfter branch a a' c.val name d hn hd hcommit]
+    run_append, run_fndaAfter branch a c.val name d hn hd]
   exact run_eol_rest branch _ rest hrest
 
 theorem brda_prefix_on (a : Acc) :
@@ -271,6 +269,56 @@ theorem sf_record_bytes (branch : Bool) (a : Acc) (sf eol : Bytes) (hn : noEol s
   rw [e1, run_append, p, run_append, run_sfName branch a [] sf d hn hd]
   simpa using run_eol_rest branch _ rest hrest
 
+/-- `DA:<line>,<count>` followed by the rest of its line: nothing, a CR, or a checksum field – the
+count ends at the first non-digit and whatever follows up to the line feed is skipped -/
+theorem da_tail_record_bytes (branch : Bool) (a : Acc) (l c : Digits) (tail : Bytes)
+    (hl : l.WF U32MAX) (hc : c.WF U64MAX) (ht : noLF tail)
+    (hh : ∀ d t, tail = d :: t → isDigit d = false) :
+    run branch ⟨.dispatch, a⟩ ([68, 65, 58] ++ l.bytes ++ [44] ++ c.bytes ++ tail ++ [LF])
+      = ⟨.dispatch, commitLine a l.val c.val⟩ := by
+  obtain ⟨c1, c2, c3⟩ := hc
+  have hvc : c.val = valFrom (c.first - 48) c.rest := by simp [Digits.val, Digits.bytes, valFrom]
+  rw [hvc] at c3 ⊢
+  have e1 : [68, 65, 58] ++ l.bytes ++ [44] ++ c.bytes ++ tail ++ [LF]
+      = [68, 65, 58] ++ ((l.bytes ++ [44]) ++ ([c.first] ++ (c.rest ++ (tail ++ [LF])))) := by
+    simp [Digits.bytes]
+  rw [e1, run_append, run_da_prefix, run_append,
+    run_field branch U32MAX .daFirst .daLine .daAfterLine a
+      (fun b hb => by simp [step, hb]) (fun n b => rfl) l hl 44 comma_not_digit, run_append]
+  have s3 : run branch ⟨.daAfterLine l.val, a⟩ [c.first] = ⟨.daCount l.val (c.first - 48), a⟩ := by
+    have : c.first ≠ 45 := by
+      intro h; rw [h] at c1; simp [isDigit] at c1
+    simp [run, step, c1, this]
+  rw [s3]
+  cases tail with
+  | nil =>
+    rw [List.nil_append, run_daCount branch a _ _ c.rest LF c2 (by decide) c3]; simp
+  | cons d t =>
+    have hd : isDigit d = false := hh d t rfl
+    have hne : d ≠ LF := ht d (by simp)
+    have e2 : c.rest ++ (d :: t ++ [LF]) = (c.rest ++ [d]) ++ (t ++ [LF]) := by simp
+    rw [e2, run_append, run_daCount branch a _ _ c.rest d c2 hd c3]
+    simp only [hne, if_false]
+    exact run_daSkip branch a _ _ t fun x hx => ht x (List.mem_cons_of_mem _ hx)
+
+theorem da_ck_record_bytes (branch : Bool) (a : Acc) (l c : Digits) (ck : Option Bytes) (eol : Bytes)
+    (hl : l.WF U32MAX) (hc : c.WF U64MAX) (hk : noLF (checksumBytes ck))
+    (heol : eol = [LF] ∨ eol = [CR, LF]) :
+    run branch ⟨.dispatch, a⟩ ([68, 65, 58] ++ l.bytes ++ [44] ++ c.bytes ++ checksumBytes ck ++ eol)
+      = ⟨.dispatch, commitLine a l.val c.val⟩ := by
+  have hcr : noLF [CR] := by intro x hx; simp at hx; subst hx; decide
+  rcases heol with h | h <;> subst h
+  · have := da_tail_record_bytes branch a l c (checksumBytes ck) hl hc hk (by
+      intro d t e; cases ck with
+      | none => simp [checksumBytes] at e
+      | some x => simp only [checksumBytes, List.cons.injEq] at e; rw [← e.1]; decide)
+    simpa using this
+  · have := da_tail_record_bytes branch a l c (checksumBytes ck ++ [CR]) hl hc (noLF_append hk hcr) (by
+      intro d t e; cases ck with
+      | none => simp only [checksumBytes, List.nil_append, List.cons.injEq] at e; rw [← e.1]; decide
+      | some x => simp only [checksumBytes, List.cons_append, List.cons.injEq] at e; rw [← e.1]; decide)
+    simpa using this
+
 theorem daNeg_record_bytes (branch : Bool) (a : Acc) (l : Digits) (txt : Bytes)
     (hl : l.WF U32MAX) (ht : noLF txt) :
     run branch ⟨.dispatch, a⟩ ([68, 65, 58] ++ l.bytes ++ [44, 45] ++ txt ++ [LF])
@@ -293,14 +341,27 @@ theorem other_record_bytes (branch : Bool) (a : Acc) (b : Nat) (txt : Bytes)
   exact run_skip branch a txt ht
 
 theorem eor_record_bytes (branch : Bool) (a : Acc) (f : Bytes) (eor : Bytes)
-    (hf : a.curFile = some f) (he : noLF eor) :
+    (hf : a.curFile = some f) (hp : a.pending = []) (he : noLF eor) :
     run branch ⟨.dispatch, a⟩ ([101] ++ eor ++ [LF])
-      = ⟨.dispatch, { results := a.results ++ [(f, a.cur)], curFile := none, cur := {} }⟩ := by
+      = ⟨.dispatch, { results := a.results ++ [(f, a.cur)], curFile := none, cur := {}, pending := [] }⟩ := by
   have s : step branch ⟨.dispatch, a⟩ 101
-      = ⟨.skip, { results := a.results ++ [(f, a.cur)], curFile := none, cur := {} }⟩ := by
-    simp [step, hf]
+      = ⟨.skip, { results := a.results ++ [(f, a.cur)], curFile := none, cur := {}, pending := [] }⟩ := by
+    simp [step, hf, hp]
   simp only [List.cons_append, List.nil_append, run_cons, s]
   exact run_skip branch _ eor he
+
+/-- `end_of_record` while an FNDA record is still waiting for its FN record: "FN record missing" -/
+theorem eor_pending_bytes (branch : Bool) (a : Acc) (f : Bytes) (hf : a.curFile = some f)
+    (hp : a.pending ≠ []) :
+    step branch ⟨.dispatch, a⟩ 101 = ⟨.halt (.err "Parse"), a⟩ := by
+  have : a.pending.isEmpty = false := by cases h : a.pending <;> simp_all
+  simp [step, hf, this]
+
+theorem run_halt (branch : Bool) (o : Out) (a : Acc) (bs : Bytes) :
+    run branch ⟨.halt o, a⟩ bs = ⟨.halt o, a⟩ := by
+  induction bs with
+  | nil => rfl
+  | cons b bs ih => simpa [run_cons, step] using ih
 
 theorem isUpper_le (x : Nat) (h : isUpper x = true) : 65 ≤ x ∧ x ≤ 90 := by
   simpa [isUpper] using h
@@ -364,121 +425,117 @@ theorem otherKeyed_record_bytes (branch : Bool) (a : Acc) (key : Bytes) (d : Nat
 
 /-! ### every record, every section, every file -/
 
-theorem rec_bytes (branch : Bool) (eol : Bytes) (heol : eol = [LF] ∨ eol = [CR, LF]) (a a' : Acc)
-    (r : Rec) (hr : r.WF) (happ : applyRec branch a r = some a') :
-    run branch ⟨.dispatch, a⟩ (renderRec eol r) = ⟨.dispatch, a'⟩ := by
+theorem rec_bytes (branch : Bool) (eol : Bytes) (heol : eol = [LF] ∨ eol = [CR, LF]) (a : Acc)
+    (r : Rec) (hr : r.WF) :
+    run branch ⟨.dispatch, a⟩ (renderRec eol r) = ⟨.dispatch, applyRec branch a r⟩ := by
   cases r with
-  | da l c =>
-    simp only [applyRec, Option.some.injEq] at happ; subst happ
-    obtain ⟨hl, hc⟩ := hr
-    exact da_record_bytes branch a l.first l.rest c.first c.rest eol hl.1 hl.2.1 hc.1 hc.2.1
-      (by simpa [LF, CR] using heol) hl.2.2 hc.2.2
-  | daNeg l txt =>
-    simp only [applyRec, Option.some.injEq] at happ; subst happ
-    exact daNeg_record_bytes branch a l txt hr.1 hr.2
-  | fn s name =>
-    simp only [applyRec, Option.some.injEq] at happ; subst happ
-    exact fn_record_bytes branch a s name eol hr.1 hr.2 heol
-  | fnda c name =>
-    simp only [applyRec] at happ
-    exact fnda_record_bytes branch a a' c name eol hr.1 hr.2 heol happ
+  | da l c ck =>
+    obtain ⟨hl, hc, hk⟩ := hr
+    exact da_ck_record_bytes branch a l c ck eol hl hc hk heol
+  | daNeg l txt => exact daNeg_record_bytes branch a l txt hr.1 hr.2
+  | fn s name => exact fn_record_bytes branch a s name eol hr.1 hr.2 heol
+  | fnda c name => exact fnda_record_bytes branch a c name eol hr.1 hr.2 heol
   | brda l blk br taken =>
     obtain ⟨hl, hb, hbr, ht⟩ := hr
-    simp only [applyRec, Option.some.injEq] at happ; subst happ
     cases branch with
-    | true => simpa [renderRec] using brda_record_bytes_on a l blk br taken eol hl hb hbr ht heol
-    | false => simpa [renderRec] using brda_record_bytes_off a l blk br taken eol hl hb hbr ht heol
+    | true => simpa [renderRec, applyRec] using brda_record_bytes_on a l blk br taken eol hl hb hbr ht heol
+    | false => simpa [renderRec, applyRec] using brda_record_bytes_off a l blk br taken eol hl hb hbr ht heol
   | other txt =>
-    simp only [applyRec, Option.some.injEq] at happ; subst happ
     obtain ⟨ht, hb⟩ := hr
     cases txt with
     | nil => exact absurd hb (by simp)
     | cons b txt =>
       exact other_record_bytes branch a b txt hb fun x hx => ht x (List.mem_cons_of_mem _ hx)
-  | otherKeyed key d txt =>
-    simp only [applyRec, Option.some.injEq] at happ; subst happ
-    exact otherKeyed_record_bytes branch a key d txt hr
-  | blank =>
-    simp only [applyRec, Option.some.injEq] at happ; subst happ
-    exact run_dispatch_LF branch a
+  | otherKeyed key d txt => exact otherKeyed_record_bytes branch a key d txt hr
+  | blank => exact run_dispatch_LF branch a
 
-theorem recs_bytes (branch : Bool) (eol : Bytes) (heol : eol = [LF] ∨ eol = [CR, LF]) (a a' : Acc)
-    (rs : List Rec) (hr : ∀ r ∈ rs, r.WF) (happ : applyRecs branch a rs = some a') :
-    run branch ⟨.dispatch, a⟩ (rs.flatMap (renderRec eol)) = ⟨.dispatch, a'⟩ := by
+theorem recs_bytes (branch : Bool) (eol : Bytes) (heol : eol = [LF] ∨ eol = [CR, LF]) (a : Acc)
+    (rs : List Rec) (hr : ∀ r ∈ rs, r.WF) :
+    run branch ⟨.dispatch, a⟩ (rs.flatMap (renderRec eol)) = ⟨.dispatch, applyRecs branch a rs⟩ := by
   induction rs generalizing a with
-  | nil => simp only [applyRecs, Option.some.injEq] at happ; subst happ; rfl
+  | nil => rfl
   | cons r rs ih =>
-    simp only [applyRecs] at happ
-    cases h1 : applyRec branch a r with
-    | none => rw [h1] at happ; simp at happ
-    | some a1 =>
-      rw [h1] at happ; simp only [Option.bind_some] at happ
-      simp only [List.flatMap_cons, run_append]
-      rw [rec_bytes branch eol heol a a1 r (hr r (by simp)) h1]
-      exact ih a1 (fun r' hr' => hr r' (List.mem_cons_of_mem _ hr')) happ
+    simp only [List.flatMap_cons, run_append]
+    rw [rec_bytes branch eol heol a r (hr r (by simp))]
+    exact ih _ (fun r' hr' => hr r' (List.mem_cons_of_mem _ hr'))
+
+theorem applyRecs_cons (branch : Bool) (a : Acc) (r : Rec) (rs : List Rec) :
+    applyRecs branch a (r :: rs) = applyRecs branch (applyRec branch a r) rs := rfl
+
+theorem applyRecs_nil (branch : Bool) (a : Acc) : applyRecs branch a [] = a := rfl
+
+theorem applyRecs_append (branch : Bool) (a : Acc) (xs ys : List Rec) :
+    applyRecs branch a (xs ++ ys) = applyRecs branch (applyRecs branch a xs) ys := by
+  simp [applyRecs, List.foldl_append]
 
 /-- inert records leave the accumulator alone -/
 theorem applyRecs_inert (branch : Bool) (a : Acc) (rs : List Rec) (h : ∀ r ∈ rs, r.isInert = true) :
-    applyRecs branch a rs = some a := by
+    applyRecs branch a rs = a := by
   induction rs with
   | nil => rfl
   | cons r rs ih =>
     have hr := h r (by simp)
-    have : applyRec branch a r = some a := by cases r <;> simp [Rec.isInert] at hr <;> rfl
-    simp [applyRecs, this, ih fun r' hr' => h r' (List.mem_cons_of_mem _ hr')]
+    have : applyRec branch a r = a := by cases r <;> simp [Rec.isInert] at hr <;> rfl
+    rw [applyRecs_cons, this, ih fun r' hr' => h r' (List.mem_cons_of_mem _ hr')]
 
-/-- records only ever change `cur` -/
-theorem applyRec_frame (branch : Bool) (a a' : Acc) (r : Rec) (h : applyRec branch a r = some a') :
-    a'.results = a.results ∧ a'.curFile = a.curFile := by
-  cases r <;> simp only [applyRec] at h
-  case fnda c name =>
-    simp only [commitFnda] at h
-    split at h <;> simp at h
-    subst h; exact ⟨rfl, rfl⟩
-  case brda l blk br taken =>
-    simp only [Option.some.injEq] at h; subst h
-    cases branch <;> exact ⟨rfl, rfl⟩
-  all_goals (simp only [Option.some.injEq] at h; subst h; exact ⟨rfl, rfl⟩)
+/-- records only ever change `cur` and `pending` -/
+theorem applyRec_frame (branch : Bool) (a : Acc) (r : Rec) :
+    (applyRec branch a r).results = a.results ∧ (applyRec branch a r).curFile = a.curFile := by
+  cases r
+  case fnda c name => simp only [applyRec, commitFnda]; split <;> exact ⟨rfl, rfl⟩
+  case brda l blk br taken => cases branch <;> exact ⟨rfl, rfl⟩
+  all_goals exact ⟨rfl, rfl⟩
 
-theorem applyRecs_frame (branch : Bool) (a a' : Acc) (rs : List Rec)
-    (h : applyRecs branch a rs = some a') : a'.results = a.results ∧ a'.curFile = a.curFile := by
+theorem applyRecs_frame (branch : Bool) (a : Acc) (rs : List Rec) :
+    (applyRecs branch a rs).results = a.results ∧ (applyRecs branch a rs).curFile = a.curFile := by
   induction rs generalizing a with
-  | nil => simp only [applyRecs, Option.some.injEq] at h; subst h; exact ⟨rfl, rfl⟩
+  | nil => exact ⟨rfl, rfl⟩
   | cons r rs ih =>
-    simp only [applyRecs] at h
-    cases h1 : applyRec branch a r with
-    | none => rw [h1] at h; simp at h
-    | some a1 =>
-      rw [h1] at h; simp only [Option.bind_some] at h
-      have f1 := applyRec_frame branch a a1 r h1
-      have f2 := ih a1 h
-      exact ⟨f2.1.trans f1.1, f2.2.trans f1.2⟩
+    rw [applyRecs_cons]
+    have f1 := applyRec_frame branch a r
+    have f2 := ih (applyRec branch a r)
+    exact ⟨f2.1.trans f1.1, f2.2.trans f1.2⟩
+
+/-- the bytes of a section up to (not including) its `end_of_record` line -/
+theorem section_body_bytes (branch : Bool) (eol : Bytes) (heol : eol = [LF] ∨ eol = [CR, LF])
+    (R : List (Bytes × Cov)) (cf : Option Bytes) (s : Section) (hs : s.WF) :
+    run branch ⟨.dispatch, { results := R, curFile := cf, cur := {}, pending := [] }⟩
+        ((s.pre.flatMap (renderRec eol)) ++ (([83, 70, 58] ++ s.sf ++ eol)
+          ++ (s.recs.flatMap (renderRec eol))))
+      = ⟨.dispatch, applyRecs branch
+          { results := R, curFile := some (utf8Lossy s.sf), cur := {}, pending := [] } s.recs⟩ := by
+  obtain ⟨hpre, hsf, hrecs, heor⟩ := hs
+  rw [run_append, recs_bytes branch eol heol _ s.pre (fun r hr => (hpre r hr).1),
+    applyRecs_inert branch _ s.pre (fun r hr => (hpre r hr).2),
+    run_append, sf_record_bytes branch _ s.sf eol hsf heol,
+    recs_bytes branch eol heol _ s.recs hrecs]
+
+theorem renderSection_split (eol : Bytes) (s : Section) :
+    renderSection eol s
+      = ((s.pre.flatMap (renderRec eol)) ++ (([83, 70, 58] ++ s.sf ++ eol)
+          ++ (s.recs.flatMap (renderRec eol)))) ++ ([101] ++ s.eor ++ [LF]) := by
+  simp [renderSection]
 
 /-- one whole section, from `SF:` to `end_of_record`, appends exactly one file record -/
 theorem section_bytes (branch : Bool) (eol : Bytes) (heol : eol = [LF] ∨ eol = [CR, LF])
-    (R : List (Bytes × Cov)) (cf : Option Bytes) (s : Section) (hs : s.WF) (a' : Acc)
-    (happ : applyRecs branch { results := R, curFile := some (utf8Lossy s.sf), cur := {} } s.recs = some a') :
-    run branch ⟨.dispatch, { results := R, curFile := cf, cur := {} }⟩ (renderSection eol s)
-      = ⟨.dispatch, { results := R ++ [(utf8Lossy s.sf, a'.cur)], curFile := none, cur := {} }⟩ := by
-  obtain ⟨hpre, hsf, hrecs, heor⟩ := hs
-  have e : renderSection eol s
-      = (s.pre.flatMap (renderRec eol)) ++ (([83, 70, 58] ++ s.sf ++ eol)
-          ++ ((s.recs.flatMap (renderRec eol)) ++ ([101] ++ s.eor ++ [LF]))) := by
-    simp [renderSection]
-  rw [e, run_append,
-    recs_bytes branch eol heol _ _ s.pre (fun r hr => (hpre r hr).1)
-      (applyRecs_inert branch _ s.pre fun r hr => (hpre r hr).2),
-    run_append, sf_record_bytes branch _ s.sf eol hsf heol, run_append,
-    recs_bytes branch eol heol _ a' s.recs hrecs happ]
-  obtain ⟨f1, f2⟩ := applyRecs_frame branch _ a' s.recs happ
-  rw [eor_record_bytes branch a' (utf8Lossy s.sf) s.eor (by simpa using f2) heor]
+    (R : List (Bytes × Cov)) (cf : Option Bytes) (s : Section) (hs : s.WF)
+    (hp : (applyRecs branch { results := R, curFile := some (utf8Lossy s.sf), cur := {}, pending := [] }
+            s.recs).pending = []) :
+    run branch ⟨.dispatch, { results := R, curFile := cf, cur := {}, pending := [] }⟩ (renderSection eol s)
+      = ⟨.dispatch,
+          { results := R ++ [(utf8Lossy s.sf, (applyRecs branch { results := R, curFile := some (utf8Lossy s.sf), cur := {}, pending := [] } s.recs).cur)],
+            curFile := none, cur := {}, pending := [] }⟩ := by
+  rw [renderSection_split, run_append, section_body_bytes branch eol heol R cf s hs]
+  obtain ⟨f1, f2⟩ := applyRecs_frame branch
+    { results := R, curFile := some (utf8Lossy s.sf), cur := {}, pending := [] } s.recs
+  rw [eor_record_bytes branch _ (utf8Lossy s.sf) s.eor (by simpa using f2) hp hs.2.2.2]
   simp only [f1]
 
 def withResults (R : List (Bytes × Cov)) (a : Acc) : Acc := { a with results := R }
 
 theorem applyRec_withResults (branch : Bool) (R : List (Bytes × Cov)) (a : Acc) (r : Rec) :
-    applyRec branch (withResults R a) r = (applyRec branch a r).map (withResults R) := by
-  cases r <;> simp only [applyRec, Option.map_some]
+    applyRec branch (withResults R a) r = withResults R (applyRec branch a r) := by
+  cases r <;> simp only [applyRec]
   case fnda c name =>
     simp only [commitFnda, withResults]
     cases get? a.cur.functions (utf8Lossy name) <;> rfl
@@ -486,21 +543,18 @@ theorem applyRec_withResults (branch : Bool) (R : List (Bytes × Cov)) (a : Acc)
   all_goals rfl
 
 theorem applyRecs_withResults (branch : Bool) (R : List (Bytes × Cov)) (a : Acc) (rs : List Rec) :
-    applyRecs branch (withResults R a) rs = (applyRecs branch a rs).map (withResults R) := by
+    applyRecs branch (withResults R a) rs = withResults R (applyRecs branch a rs) := by
   induction rs generalizing a with
   | nil => rfl
-  | cons r rs ih =>
-    simp only [applyRecs, applyRec_withResults]
-    cases applyRec branch a r with
-    | none => rfl
-    | some a1 => simp [ih]
+  | cons r rs ih => rw [applyRecs_cons, applyRecs_cons, applyRec_withResults, ih]
 
 /-- the whole file: every section appends its record, in order -/
 theorem file_bytes (branch : Bool) (eol : Bytes) (heol : eol = [LF] ∨ eol = [CR, LF])
     (secs : List Section) (hs : ∀ s ∈ secs, s.WF) (rs : List (Bytes × Cov))
     (hsem : semAll branch secs = some rs) (R : List (Bytes × Cov)) (cf : Option Bytes) :
-    run branch ⟨.dispatch, { results := R, curFile := cf, cur := {} }⟩ (render eol secs)
-      = ⟨.dispatch, { results := R ++ rs, curFile := (if secs = [] then cf else none), cur := {} }⟩ := by
+    run branch ⟨.dispatch, { results := R, curFile := cf, cur := {}, pending := [] }⟩ (render eol secs)
+      = ⟨.dispatch, { results := R ++ rs, curFile := (if secs = [] then cf else none), cur := {},
+                      pending := [] }⟩ := by
   induction secs generalizing R cf rs with
   | nil => simp only [semAll, Option.some.injEq] at hsem; subst hsem; simp [render, run]
   | cons s ss ih =>
@@ -517,20 +571,22 @@ theorem file_bytes (branch : Bool) (eol : Bytes) (heol : eol = [LF] ∨ eol = [C
         subst hsem
         -- the section's accumulator, computed with an empty result list
         simp only [semSection] at h1
-        cases h3 : applyRecs branch { results := [], curFile := some (utf8Lossy s.sf), cur := {} } s.recs with
-        | none => rw [h3] at h1; simp at h1
-        | some a0 =>
-          rw [h3] at h1; simp only [Option.map_some, Option.some.injEq] at h1; subst h1
-          have h4 : applyRecs branch { results := R, curFile := some (utf8Lossy s.sf), cur := {} } s.recs
-              = some (withResults R a0) := by
-            have := applyRecs_withResults branch R
-              { results := [], curFile := some (utf8Lossy s.sf), cur := {} } s.recs
-            rw [h3] at this; exact this
-          have hsec := section_bytes branch eol heol R cf s (hs s (by simp)) (withResults R a0) h4
+        split at h1
+        · rename_i hpend
+          simp only [Option.some.injEq] at h1; subst h1
+          have h4 := applyRecs_withResults branch R
+            { results := [], curFile := some (utf8Lossy s.sf), cur := {}, pending := [] } s.recs
+          have h4' : applyRecs branch { results := R, curFile := some (utf8Lossy s.sf), cur := {}, pending := [] } s.recs
+              = withResults R (applyRecs branch
+                  { results := [], curFile := some (utf8Lossy s.sf), cur := {}, pending := [] } s.recs) := h4
+          have hp : (applyRecs branch { results := R, curFile := some (utf8Lossy s.sf), cur := {}, pending := [] }
+              s.recs).pending = [] := by
+            rw [h4']; simpa [withResults] using hpend
+          have hsec := section_bytes branch eol heol R cf s (hs s (by simp)) hp
           have e : render eol (s :: ss) = renderSection eol s ++ render eol ss := by simp [render]
-          rw [e, run_append, hsec]
+          rw [e, run_append, hsec, h4']
           rw [ih (fun s' hs' => hs s' (List.mem_cons_of_mem _ hs')) rs2 h2]
           cases ss <;> simp [withResults]
-
+        · simp at h1
 
 end Grcov.Lcov
